@@ -180,6 +180,8 @@ def _ev(t):
     if k == "f1":
         x = _ev(t[2])
         n = t[1]
+        if isinstance(x, (bool, np.bool_)):
+            x = float(x)      # a truth value used as a number is 1 or 0 (numpy would compute sin(True) in half precision)
         if n == "exp":
             return np.e ** x
         return {"log": np.log, "log10": np.log10, "sqrt": np.sqrt, "sin": np.sin, "cos": np.cos, "tan": np.tan}[n](x)
